@@ -151,7 +151,7 @@ pub fn run<M: Clone + Send + Sync>(rep: &Report, spec: &Spec<M>, depth: usize, m
             l.nontrivial(&(spec.name, (spec.key)(m)));
             // transitions were already counted per edge; undo the one `state` adds
             l.transitions -= 1;
-            if l.samples.is_empty() && level == 2 {
+            if l.samples.is_empty() && level == 2 && spec.on_state.is_none() {
                 let c = history_name(spec, *init, hist);
                 l.sample(|| json!({"space": format!("bfs.{}", spec.name), "history": c}));
             }
